@@ -17,7 +17,12 @@
 #![allow(static_mut_refs)]
 
 pub const KCAP: usize = 64; // longest key
+#[cfg(not(feature = "big"))]
 pub const MCAP: usize = 176; // longest message
+/// feature "big" (enabled by unit v1_pke only, its own build group): k1.seal hashes and MACs 512-byte RSA values
+/// (longest message: "k1.seal." ‖ c(512) ‖ edk(32) = 552). Every other unit keeps 176.
+#[cfg(feature = "big")]
+pub const MCAP: usize = 560;
 pub const OCAP: usize = 64; // longest output
 pub const SLOTS: usize = 40; // calls per harness
 
@@ -257,7 +262,11 @@ impl<const N: usize> Default for Buf<N> {
 
 // ------------------------------------------------------------------------------------------------ RNG
 pub const DRAWS: usize = 6;
+#[cfg(not(feature = "big"))]
 pub const DRAW_CAP: usize = 48;
+/// feature "big" (unit v1_pke only): k1.seal draws its 512-byte random integer in one call
+#[cfg(feature = "big")]
+pub const DRAW_CAP: usize = 512;
 #[derive(Clone, Copy)]
 pub struct Draw {
     pub len: usize,
